@@ -24,6 +24,18 @@ impl<'s> SpannedIter<'s, Tok<'s>> {
             old(self).remaining().len() > 0 ==> r == Some(old(self).remaining()[0])
                 && final(self).remaining() == old(self).remaining().skip(1),
     { unimplemented!() }
+
+    // The rest of logos' cursor API. `slice`/`remainder`/`span` only look; `bump(n)` moves the raw cursor by n bytes, after
+    // which the remaining token sequence is whatever re-lexing from the new offset gives: the model says nothing about it
+    // (havoc), so code that bumps cannot discharge the frame clauses unless it proves what it skipped.
+    #[verifier::external_body]
+    pub fn slice(&self) -> (r: &'s str) { unimplemented!() }
+    #[verifier::external_body]
+    pub fn remainder(&self) -> (r: &'s str) { unimplemented!() }
+    #[verifier::external_body]
+    pub fn span(&self) -> (r: Range<usize>) { unimplemented!() }
+    #[verifier::external_body]
+    pub fn bump(&mut self, n: usize) { unimplemented!() }
 }
 
 /*@type lang/surface/src/textual/lexer.rs :: struct Lexer @*/
@@ -70,6 +82,18 @@ pub open spec fn depth_after(d: int, s: Seq<Item>) -> int
     else { d }
 }
 
+// span of the outermost `/-` that is still open once everything skippable has been skipped (`cs` = the one recorded so far)
+pub open spec fn pending_open(d: int, cs: Range<usize>, s: Seq<Item>) -> Range<usize>
+    decreases s.len()
+{
+    if s.len() == 0 { cs }
+    else if is_skipped(d, s[0]) {
+        let cs2 = if d == 0 && s[0].0 == Ok::<Tok, ()>(Tok::CommentOpen) { s[0].1 } else { cs };
+        pending_open(depth_step(d, s[0]), cs2, s.skip(1))
+    }
+    else { cs }
+}
+
 // A-logos-total: on &str input the logos automaton never yields an Err item (catch-all `Unknown`).
 pub open spec fn all_ok(s: Seq<Item>) -> bool {
     forall|i: int| 0 <= i < s.len() ==> (#[trigger] s[i]).0 is Ok
@@ -109,6 +133,9 @@ impl<'source> Lexer<'source> {
          == depth_after(self.comment_depth as int, self.inner.remaining()),
        self.inner.remaining() == old(self).inner.remaining().skip(
             old(self).inner.remaining().len() - self.inner.remaining().len()),
+       // [E4-inductive] the recorded `/-` is the outermost one still open
+       pending_open(old(self).comment_depth as int, old(self).comment_start, old(self).inner.remaining())
+         == pending_open(self.comment_depth as int, self.comment_start, self.inner.remaining()),
      ensures
        @post
      decreases self.inner.remaining().len(),
@@ -121,19 +148,33 @@ impl<'source> Lexer<'source> {
         // [E2a] nothing outside comments is skipped: None only if every remaining item was skippable
         r.is_none() ==> consumed(old(self).comment_depth as int, old(self).inner.remaining())
             == old(self).inner.remaining().len(),
+        // [E4] the stream never ends inside a block comment: an input that ends in an unterminated `/-` is not accepted silently
+        r.is_none() ==> depth_after(old(self).comment_depth as int, old(self).inner.remaining()) == 0,
         // [E2b] the delivered token is the first non-skippable item, with its exact span
-        r.is_some() ==> ({
+        r.is_some() && consumed(old(self).comment_depth as int, old(self).inner.remaining()) < old(self).inner.remaining().len() ==> ({
             let k = consumed(old(self).comment_depth as int, old(self).inner.remaining());
             &&& 0 <= k < old(self).inner.remaining().len()
             &&& old(self).inner.remaining()[k].0 == Ok::<Tok<'source>, ()>(r.unwrap().1)
             &&& r.unwrap().0 == old(self).inner.remaining()[k].1.start
             &&& r.unwrap().2 == old(self).inner.remaining()[k].1.end
         }),
+        // [E4b] at the end of an input that is still inside a comment, the outermost unterminated `/-` itself is delivered
+        // (with its own span, so the parser's diagnostic points at it), exactly once
+        r.is_some() && consumed(old(self).comment_depth as int, old(self).inner.remaining()) == old(self).inner.remaining().len() ==> ({
+            let p = pending_open(old(self).comment_depth as int, old(self).comment_start, old(self).inner.remaining());
+            &&& depth_after(old(self).comment_depth as int, old(self).inner.remaining()) > 0
+            &&& r.unwrap().1 == Tok::<'source>::CommentOpen
+            &&& r.unwrap().0 == p.start && r.unwrap().2 == p.end
+            &&& final(self).comment_depth == 0
+            &&& final(self).inner.remaining().len() == 0
+        }),
         // [E3a] frame: exactly the skipped items and the delivered one are consumed
-        r.is_some() ==> final(self).inner.remaining() == old(self).inner.remaining().skip(
+        r.is_some() && consumed(old(self).comment_depth as int, old(self).inner.remaining()) < old(self).inner.remaining().len()
+            ==> final(self).inner.remaining() == old(self).inner.remaining().skip(
             consumed(old(self).comment_depth as int, old(self).inner.remaining()) + 1),
         // [E3b] comment depth follows the nesting discipline
-        final(self).comment_depth == depth_after(old(self).comment_depth as int, old(self).inner.remaining()),
+        consumed(old(self).comment_depth as int, old(self).inner.remaining()) < old(self).inner.remaining().len()
+            ==> final(self).comment_depth == depth_after(old(self).comment_depth as int, old(self).inner.remaining()),
         // [E3c] the representation invariant is preserved
         final(self).wf(),
 /*@end*/
@@ -153,7 +194,9 @@ pub proof fn spec_sanity(open: Item, close: Item, x: Item)
     ensures consumed(0, seq![close, x]) == 0,
             consumed(0, seq![open, x, close, x]) == 3,
             consumed(0, seq![open, x]) == 2,
+            depth_after(0, seq![open, x]) == 1,
 {
+    reveal_with_fuel(depth_after, 5);
     reveal_with_fuel(consumed, 5);
     assert(seq![open, x, close, x].skip(1) =~= seq![x, close, x]);
     assert(seq![x, close, x].skip(1) =~= seq![close, x]);
